@@ -19,6 +19,27 @@ fn gcase(p: GenParams, lr: bool) -> BoxedStrategy<GCase> {
             if lr {
                 grammar.gtype = Some(GType::LALR);
             }
+            // another kind of tie: one terminal that is the only symbol of the only production of
+            // several non-terminals (candidates for the terminal's name); the plain form is rejected
+            // by parol ("multiple token aliases"), the form with a single-alternative group is not
+            let mut t2 = Tape { data: &tp, pos: 0 };
+            if t2.next(4) == 3 {
+                let terms = grammar.terms();
+                let text = if terms.is_empty() || t2.next(3) == 0 { "alias".to_string() } else { terms[t2.next(terms.len())].lit.text.clone() };
+                let n = 2 + t2.next(3);
+                let names = ["Plus", "UnaryPlus", "AliasC", "Another", "Zeta"];
+                let start = grammar.start.clone();
+                for (i, name) in names.iter().enumerate().take(n) {
+                    if grammar.prods.iter().any(|p| p.lhs == *name) {
+                        continue;
+                    }
+                    let body = if i == 0 && t2.next(2) == 0 { vec![Factor::t(&text)] } else { vec![Factor::Group(vec![vec![Factor::t(&text)]])] };
+                    grammar.prods.push(Prod { lhs: name.to_string(), alts: vec![body] });
+                    if let Some(p) = grammar.prods.iter_mut().find(|p| p.lhs == start) {
+                        p.alts.push(vec![Factor::t(&format!("k{i}")), Factor::n(name)]);
+                    }
+                }
+            }
             GCase { grammar, tape: tp }
         })
         .boxed()
@@ -40,7 +61,7 @@ impl Check for C24 {
         "C24"
     }
     fn rule(&self) -> String {
-        "case = random grammar (ll(k) and lalr(1); shapes biased to ties: several equally frequent common prefixes inside one non-terminal, many alternatives over 2-3 terminals, helper-looking names) generated 6 times in one process: every HashMap/HashSet of every run gets a fresh RandomState, so hash-order dependence shows up exactly as it would between two processes; oracle: generated parser source, generated trait/AST source and the expanded grammar are byte-identical in all runs. Evaluations = pipeline runs. Non-trivial = grammar in which some non-terminal has two different equally frequent longest common prefixes (a left-factoring tie, decided by an independent predicate) or >= 12 productions after transformation; distinct by grammar text".into()
+        "case = random grammar (ll(k) and lalr(1); shapes biased to ties: several equally frequent common prefixes inside one non-terminal, many alternatives over 2-3 terminals, helper-looking names, one terminal being the whole right-hand side of several single-production non-terminals) generated 6 times in one process: every HashMap/HashSet of every run gets a fresh RandomState, so hash-order dependence shows up exactly as it would between two processes; oracle: generated parser source, generated trait/AST source and the expanded grammar are byte-identical in all runs. Evaluations = pipeline runs. Non-trivial = grammar in which some non-terminal has two different equally frequent longest common prefixes (a left-factoring tie, decided by an independent predicate) or >= 12 productions after transformation; distinct by grammar text".into()
     }
     fn strategy(&self, tier: Tier) -> BoxedStrategy<GCase> {
         let mut p = GenParams::ll();
